@@ -1,5 +1,6 @@
 import Sozu.Headers.EditorLemmas
 import Sozu.Headers.EditorLemmas2
+import Sozu.Headers.HstsLemmas
 /-
 C13 — backends see the client's request plus truthful, unspoofable proxy
 metadata. Only property statements (`C13_*`) and their non-vacuity examples;
@@ -189,5 +190,64 @@ example : editResponse exampleCtx [.hdr [97] [49]] = [.hdr [97] [49], .hdr [73, 
 
 example : applyEdits [⟨[97], [], .append⟩, ⟨[98], [50], .set⟩] [.hdr [65] [49], .hdr [99] [51], .hdr [98] [52]]
     = [.hdr [99] [51], .hdr [98] [50]] := by decide
+
+/-- **HSTS: an explicit block wins for ever** (model of `Router::add_http_front_with_hsts_origin`,
+    `Frontend::new`, `refresh_inheriting_hsts`, driven as `https.rs` drives
+    them). For every earlier history `pre`, every frontend added with its own
+    `hsts` block `c` (whatever its other policy fields, position or cluster)
+    and every later history `post` of listener HSTS patches, adds and removals
+    of other frontends: the `Strict-Transport-Security` edits applied to that
+    frontend's responses are exactly those of its own block — its own rendered
+    value when enabled, none when disabled — whatever the listener default was,
+    is, or becomes. In particular at most one is ever added. -/
+theorem C13_hsts_explicit_block_wins (s0 : HState) (pre post : List HOp) (id : Nat) (c : HstsCfg) (p : Bool)
+    (o : List HeaderEdit) (d : Bool)
+    (hfresh : (hRun s0 pre).routes.any (·.1 == id) = false)
+    (ho : ∀ e ∈ o, isStsEdit e = false) (hnr : ∀ op ∈ post, removes id op = false) :
+    stsOf (hRun s0 (pre ++ [.add id (some c) p o d] ++ post)) id = (stsEdit c).toList :=
+  explicit_block_wins s0 pre post id c p o d hfresh ho hnr
+
+/-- **An explicit HSTS opt-out never inherits**: a frontend that disabled HSTS
+    (`enabled` ≠ true in its own block) never gets a proxy-added
+    `Strict-Transport-Security`, after any history of listener patches. -/
+theorem C13_hsts_explicit_optout_never_inherits (s0 : HState) (pre post : List HOp) (id : Nat) (c : HstsCfg)
+    (p : Bool) (o : List HeaderEdit) (d : Bool) (hc : c.enabled ≠ some true)
+    (hfresh : (hRun s0 pre).routes.any (·.1 == id) = false)
+    (ho : ∀ e ∈ o, isStsEdit e = false) (hnr : ∀ op ∈ post, removes id op = false) :
+    stsOf (hRun s0 (pre ++ [.add id (some c) p o d] ++ post)) id = [] :=
+  optout_never s0 pre post id c p o d hc hfresh ho hnr
+
+/-- opt-out frontend with no other policy, listener default enabled before and patched twice after -/
+example : stsOf (hRun {} [.patch exOn, .add 7 (some exOff) false [] false, .patch exOn2, .patch exOn]) 7 = [] := by decide
+
+example : stsOf (hRun {} [.patch exOn, .add 7 (some exOn2) false [] false, .patch exOff, .patch exOn]) 7
+    = (stsEdit exOn2).toList ∧ (stsEdit exOn2).isSome = true := by decide
+
+/-- **The effective HSTS of a frontend without a block is the listener's
+    latest default** (`_partial`: for a frontend with no other policy field,
+    or one added while the listener already had an `hsts` default). For every
+    history before and after, the edits applied are exactly those of the
+    default in force at the end — enabled → its rendered value, disabled or
+    absent → none: they depend on nothing but the latest default. -/
+theorem C13_hsts_effective_after_any_refresh_history_partial (s0 : HState) (pre post : List HOp) (id : Nat)
+    (p : Bool) (o : List HeaderEdit) (d : Bool)
+    (hfresh : (hRun s0 pre).routes.any (·.1 == id) = false)
+    (ho : ∀ e ∈ o, isStsEdit e = false) (hnr : ∀ op ∈ post, removes id op = false)
+    (hcond : (p = false ∧ o = []) ∨ (hRun s0 pre).default.isSome = true) :
+    stsOf (hRun s0 (pre ++ [.add id none p o d] ++ post)) id =
+      ((hRun s0 (pre ++ [.add id none p o d] ++ post)).default.bind stsEdit).toList :=
+  follows_default s0 pre post id p o d hfresh ho hnr hcond
+
+/-- the excluded point: a frontend *with* another policy field and no `hsts`
+    block, added before the listener had any HSTS default, never picks up a
+    later default (it is stored as `Route::Frontend` with
+    `inherits_listener_hsts = false`) — an omission, not an addition, so not a
+    violation of the response clause; reproduced on the real router -/
+theorem C13_hsts_effective_after_any_refresh_history_counterexample :
+    stsOf (hRun {} [.add 1 none true [] false, .patch exOn]) 1 = [] ∧
+    ((hRun {} [.add 1 none true [] false, .patch exOn]).default.bind stsEdit).isSome = true := by decide
+
+example : stsOf (hRun {} [.add 1 none false [] false, .patch exOn, .patch exOn2]) 1 = (stsEdit exOn2).toList ∧
+    stsOf (hRun {} [.patch exOn, .add 1 none true [] false, .patch exOff]) 1 = [] := by decide
 
 end Sozu.Headers
